@@ -1960,9 +1960,18 @@ func (query *Query) exec() (result any, err error) {
 		switch current := current.(type) {
 		case []any:
 			{
+				inherited := len(query.postProcessors)
 				copy := CopyQuery(query)
 				copy.from = current
 				rs, err := copy.exec()
+				// an inner array is evaluated by a copy of the query: the pending work the copy is left
+				// with (ASYNC calls to wait for, post-processors that put their results in place) is the query's
+				query.postProcessors = append(query.postProcessors, copy.postProcessors[inherited:]...)
+				query.wg.Add(1)
+				go func() {
+					copy.wg.Wait()
+					query.wg.Done()
+				}()
 				if err != nil {
 					return nil, err
 				}
